@@ -748,7 +748,12 @@ impl Model for MgrModel {
         for id in sys.inbound_nego.keys() {
             v.push(Act::InboundEstablished { id: *id });
             v.push(Act::InboundVanish { id: *id });
-            v.push(Act::InboundEstablishedAcceptFails { id: *id });
+            // offered in C06's model only: C06's capacity clause covers a connection that fails at any point; the shipped
+            // transports cannot fail this call (their pending_open entry is only removed by accept/reject), and C05's
+            // quantifier does not list it (DESIGN Appendix B, round 7)
+            if self.filter == "c06" {
+                v.push(Act::InboundEstablishedAcceptFails { id: *id });
+            }
         }
         for id in sys.kept.keys() {
             v.push(Act::Close { id: *id });
